@@ -199,7 +199,7 @@ pub fn run(r: &Runner) {
     let g = GenSpec { kinds: &K, profile: Profile { truncate: 8, mutate: 100, ..Profile::DEFAULT }, generous_cap: true, cfg_mask: 0x7f, cfg_entry_only: false };
     r.par_random(
         "G1 bases with mutations: every prefix that yields Partial needs a completion",
-        r.amount(40_000, 1_200_000),
+        r.amount(400_000, 6_000_000),
         160,
         |u: &mut Choice| g1_case(u, "partial-prefixes", &g),
         &|ctx, l, rec| check(r, ctx, l, rec),
@@ -207,7 +207,7 @@ pub fn run(r: &Runner) {
     let g2 = GenSpec { kinds: &RR_KINDS, profile: Profile { truncate: 8, ..Profile::LENIENT }, generous_cap: true, cfg_mask: 0x7f, cfg_entry_only: true };
     r.par_random(
         "G1 lenient-weighted bases (folds, ignored lines, whitespace options)",
-        r.amount(30_000, 800_000),
+        r.amount(300_000, 4_000_000),
         160,
         |u: &mut Choice| g1_case(u, "partial-prefixes", &g2),
         &|ctx, l, rec| check(r, ctx, l, rec),
